@@ -17,6 +17,13 @@ func checkC17(p *load.Program, r *kit.Report) {
 	importRules(p, r, "C10", "Branches.Trim finds the descendants of a trimmed branch by the identity of their parent pointers: Clean must re-attach every branch to the rebuilt branch objects, or a descendant of the marked header survives the trim and can become the best chain", 1,
 		func(o *kit.Obligation) bool { return strings.HasPrefix(o.Construct, "consolidate/") }, "COVER-ALL")
 	r.NotDecided = "fallback to the heaviest remaining chain and exclusion of descendants as behaviour over histories; HashHeight still answering with the old height for trimmed headers (the long-lived map never shrinks)."
+	r.Rule("PERSIST-UNDER-LOCK", "every call of saveInvalidHashes from a Repository method is made with the repository mutex held (the list is serialised and written in the critical section that read it): a stale snapshot written after the lock was released would undo a concurrent MarkHeaderInvalid/MarkHeaderNotInvalid on disk", 4)
+	checkPersistUnderLock(p, r, "PERSIST-UNDER-LOCK", H, "Repository", func(c ssa.CallInstruction) string {
+		if kit.CallID(c) == H+".saveInvalidHashes" {
+			return "the invalid-hash list"
+		}
+		return ""
+	}, 4)
 	r.Rule("FLAG-RULE", "a trimmed header stays in the long-lived height map: CheckHeader/GetHeader report `in most-work chain` only after comparing the hash with the most-work chain's header at that height, never from map membership", 4)
 	checkFlagRule(p, r)
 	r.Rule("NIL-FLOW", "a pointer known nil by a dominating test edge is never dereferenced nor passed to a callee that dereferences that parameter before testing it (all functions of the two packages)", 1)
